@@ -16,9 +16,10 @@ Model: `DepsDev.Model.Maven.Api`. Contents
    fold of `MergeParent` (closed form of `apiRequirements` on the fetched chain);
 3. refinement: for every lineage the API client returns `MavenDepType` mapped over the dependencies
    the documented pipeline computes on the API's view of the lineage (default profiles only);
-4. `MavenDepTypeToDependency (MavenDepType d origin) = (normalise d, origin)`: full statement, its
-   refutation (run-time panic when every exclusion contains a pipe), the partial theorem; totality of
-   `MavenDepTypeToDependency` on arbitrary types, partial, with the exact panic condition.
+4. `MavenDepTypeToDependency (MavenDepType d origin) = (normalise d, origin)` for every dependency;
+   `MavenDepTypeToDependency` never panics, for every Maven dep.Type, and returns the error exactly for
+   Test together with Scope or a non-empty exclusion segment without a colon. (Both were false before the
+   repair of F-C15-i: regression examples on the old witnesses.)
 -/
 namespace DepsDev.Props.C15b
 open DepsDev DepsDev.Model.Maven DepsDev.Model.Maven.Api DepsDev.Gen
@@ -160,34 +161,19 @@ theorem depType_scope_valid (d : Dep) (origin : Bytes) :
         intro e; simp [e] at h2
       · simp [h1, h2] at hs
 
-/-- **The round trip at full strength**: for every dependency and origin. -/
-def DepTypeRoundTrip : Prop :=
-  ∀ (d : Dep) (origin : Bytes), mavenDepTypeToDependency (mavenDepType d origin) = .ok (normalise d, origin)
+/-- **The round trip**, for every dependency and every origin: the result is the dependency normalised (no
+coordinates; `jar`, `compile`, "not optional" as empty strings; exclusions containing a pipe dropped — that
+is what `ExclusionsString` does —, the others split at their first colon) and the origin. -/
+theorem depType_roundtrip (d : Dep) (origin : Bytes) :
+    mavenDepTypeToDependency (mavenDepType d origin) = .ok (normalise d, origin) :=
+  DepsDev.Proofs.C15ApiType.depType_roundtrip d origin
 
-/-- `g:x:1` with the single exclusion `a|b:c`: `ExclusionsString` skips it, the attribute is the empty
-string, and `MavenDepTypeToDependency` slices its only segment with a bound of -1. -/
+/-- `g:x:1` with the single exclusion `a|b:c` (the witness of F-C15-i, fixed): `ExclusionsString` skips the
+exclusion, the attribute is the empty string, its only segment is empty and skipped. -/
 def W_pipe : Dep := ⟨[103], [120], [49], [], [], [], [], [⟨[97, 124, 98], [99]⟩]⟩
 
-theorem depType_roundtrip_panics_on_witness : mavenDepTypeToDependency (mavenDepType W_pipe []) = .panic := by decide
-
-/-- The round trip does not hold of the unchanged code (F-C15-i). -/
-theorem depType_roundtrip_false : ¬ DepTypeRoundTrip := by
-  intro h
-  have := h W_pipe []
-  rw [depType_roundtrip_panics_on_witness] at this
-  cases this
-
-/-- **Round trip, partial.** Extra hypothesis (the finding class): the dependency has no exclusions, or at least
-one without a pipe. Then the result is the dependency normalised (no coordinates; `jar`, `compile`, "not
-optional" as empty strings; exclusions without a pipe, each split at its first colon) and the origin. -/
-theorem depType_roundtrip_partial (d : Dep) (origin : Bytes) (h : SomeExclusionSurvives d) :
-    mavenDepTypeToDependency (mavenDepType d origin) = .ok (normalise d, origin) :=
-  depType_roundtrip d origin h
-
-/-- The hypothesis is exact: outside it the call panics. -/
-theorem depType_panics_outside (d : Dep) (origin : Bytes) (h : ¬ SomeExclusionSurvives d) :
-    mavenDepTypeToDependency (mavenDepType d origin) = .panic :=
-  depType_panics d origin h
+example : (mavenDepType W_pipe []).excl = some [] := by decide
+example : mavenDepTypeToDependency (mavenDepType W_pipe []) = .ok (⟨[], [], [], [], [], [], [], []⟩, []) := by decide
 
 /-- Well-formed exclusions (`g:a` with no pipe in either part and no colon in the group) come back unchanged. -/
 theorem exclusions_come_back (d : Dep) (hwf : ∀ e ∈ d.excl, hasPipe e = false ∧ cColon ∉ e.g) :
@@ -213,34 +199,25 @@ theorem exclusions_come_back (d : Dep) (hwf : ∀ e ∈ d.excl, hasPipe e = fals
   simp only [normalise, hk]
   exact (List.map_congr_left hv).trans (List.map_id _)
 
-/-- **`MavenDepTypeToDependency` is total** (never panics: it returns a dependency or the error) —
-the statement at full strength, for every Maven dep.Type. -/
-def TypeToDependencyTotal : Prop := ∀ t : DType, mavenDepTypeToDependency t ≠ .panic
+/-- **`MavenDepTypeToDependency` is total**: it never panics (no slice expression goes out of range), for every
+Maven dep.Type. -/
+theorem typeToDependency_total (t : DType) : mavenDepTypeToDependency t ≠ .panic :=
+  typeToDependency_no_panic t
 
-/-- a type whose exclusions attribute is `nocolon` -/
+/-- It returns the error `invalid Maven dep.Type` exactly for Test together with Scope, or an exclusions
+attribute one of whose non-empty `|`-separated segments has no colon; otherwise a dependency. -/
+theorem typeToDependency_error_condition (t : DType) :
+    mavenDepTypeToDependency t = .err ↔
+      (t.test = true ∧ t.scope ≠ none) ∨ ∃ e, t.excl = some e ∧ ∃ s ∈ splitPipe e, s ≠ [] ∧ cColon ∉ s :=
+  typeToDependency_err_iff t
+
+/-- a type whose exclusions attribute is `nocolon` (the second witness of F-C15-i, fixed): the error -/
 def W_nocolon : DType := ⟨false, false, false, none, none, none, none, some [110, 111, 99, 111, 108, 111, 110]⟩
 
-theorem typeToDependency_total_false : ¬ TypeToDependencyTotal := fun h => h W_nocolon (by decide)
-
-/-- **Totality, partial.** Extra hypothesis (the finding class): every `|`-separated segment of the exclusions
-attribute has a colon. -/
-theorem typeToDependency_total_partial (t : DType) (h : SegmentsHaveColon t) : mavenDepTypeToDependency t ≠ .panic :=
-  typeToDependency_no_panic t h
-
-/-- The hypothesis is exact (when the type is not rejected first for carrying Test and Scope), and on the types
-`MavenDepType` produces it is the hypothesis of the round trip. -/
-theorem typeToDependency_panic_condition :
-    (∀ t : DType, ¬ SegmentsHaveColon t → (t.scope = none ∨ t.test = false) → mavenDepTypeToDependency t = .panic) ∧
-    (∀ (d : Dep) (origin : Bytes), SegmentsHaveColon (mavenDepType d origin) ↔ SomeExclusionSurvives d) :=
-  ⟨typeToDependency_panics, segments_of_depType⟩
-
-/-- each witness falsifies the hypothesis its finding is classified by -/
-theorem witnesses_classified : ¬ SomeExclusionSurvives W_pipe ∧ ¬ SegmentsHaveColon W_nocolon := by
-  constructor
-  · decide
-  · intro h
-    have := h [110, 111, 99, 111, 108, 111, 110] (by decide)
-    revert this; decide
+example : mavenDepTypeToDependency W_nocolon = .err := by decide
+/-- `g:x||*:*|`: empty segments are skipped -/
+example : mavenDepTypeToDependency ⟨false, false, false, none, none, none, none, some [103, 58, 120, 124, 124, 42, 58, 42, 124]⟩ =
+    .ok (⟨[], [], [], [], [], [], [], [⟨[103], [120]⟩, ⟨[42], [42]⟩]⟩, []) := by decide
 
 /-! ## Non-vacuity -/
 
@@ -248,7 +225,6 @@ theorem witnesses_classified : ¬ SomeExclusionSurvives W_pipe ∧ ¬ SegmentsHa
 def E_dep : Dep := ⟨[103], [120], [49], bPom, [116], [114, 117, 110], bTrue,
   [⟨[103], [121]⟩, ⟨[97, 124, 98], [99]⟩, ⟨[42], [42]⟩]⟩
 
-example : SomeExclusionSurvives E_dep := by decide
 example : mavenDepTypeToDependency (mavenDepType E_dep [105]) =
     .ok (⟨[], [], [], bPom, [116], [114, 117, 110], bTrue, [⟨[103], [121]⟩, ⟨[42], [42]⟩]⟩, [105]) := by decide
 
